@@ -3,11 +3,17 @@
 package props
 
 import (
+	"encoding/json"
 	"fmt"
+	"os"
+	"sort"
+	"strings"
+	"sync"
 	"testing"
 
 	"go.flow.arcalot.io/engine/internal/verif/vcase"
 	"go.flow.arcalot.io/engine/internal/verif/vrun"
+	"go.flow.arcalot.io/engine/internal/verif/vsched"
 	"pgregory.net/rapid"
 )
 
@@ -21,6 +27,33 @@ func extraInt(c *vcase.Case, k string) int {
 		return int(x)
 	}
 	return 0
+}
+
+var loopSitesOnce struct {
+	sync.Once
+	sites []string
+}
+
+// loopSites lists the schedule points of the loop provider's item handling (from the site list
+// the instrumenter wrote for this build; empty when the binary has no schedule points).
+func loopSites() []string {
+	loopSitesOnce.Do(func() {
+		raw, err := os.ReadFile("build/sites.json")
+		if err != nil {
+			return
+		}
+		var all map[string][]string
+		if json.Unmarshal(raw, &all) != nil {
+			return
+		}
+		for _, s := range all["internal/step/foreach/provider.go"] {
+			if strings.Contains(s, "executeSubWorkflows#") || strings.Contains(s, "processInput#") {
+				loopSitesOnce.sites = append(loopSitesOnce.sites, s)
+			}
+		}
+		sort.Strings(loopSitesOnce.sites)
+	})
+	return loopSitesOnce.sites
 }
 
 func TestC13(t *testing.T) {
@@ -43,6 +76,21 @@ func TestC13(t *testing.T) {
 					c.Script.Steps[k] = b
 				}
 				c.Labels = append(c.Labels, "closed-while-running")
+			}
+			// a third of the cases delays one schedule point inside the loop provider (all hits, the
+			// first k or exactly the k-th): items then sit between two of the provider's steps while
+			// their siblings pass by
+			if sites := loopSites(); len(sites) > 0 && rapid.IntRange(0, 2).Draw(rt, "delay?") == 0 {
+				site := sites[rapid.IntRange(0, len(sites)-1).Draw(rt, "delay.site")]
+				sp := vsched.SitePlan{DelayMs: rapid.IntRange(2, 25).Draw(rt, "delay.ms")}
+				switch rapid.IntRange(0, 2).Draw(rt, "delay.which") {
+				case 1:
+					sp.First = rapid.IntRange(1, 3).Draw(rt, "delay.first")
+				case 2:
+					sp.Nth = rapid.IntRange(1, 4).Draw(rt, "delay.nth")
+				}
+				c.Plan = vsched.Plan{site: sp}
+				c.Labels = append(c.Labels, "delayed-site-in-loop-provider")
 			}
 			return c
 		},
